@@ -173,6 +173,12 @@ func (s *server) onAccept(conn Conn) {
 		return nil
 	})
 	s.connections.Store(fd, nconn)
+	if !nconn.IsActive() {
+		// closed (e.g. a hang-up handled by another poller) after init but before it was
+		// stored: its close callback has already run and found nothing to delete
+		s.connections.Delete(fd)
+		return
+	}
 
 	// trigger onConnect asynchronously
 	nconn.onConnect()
